@@ -27,6 +27,7 @@ type G struct {
 	P [][2]float64     `json:"p,omitempty"`
 	L [][][2]float64   `json:"l,omitempty"`
 	M [][][][2]float64 `json:"m,omitempty"`
+	C []*G             `json:"c,omitempty"` // GeometryCollection members
 }
 
 const (
@@ -36,9 +37,12 @@ const (
 	TMultiPoint      = "MULTIPOINT"
 	TMultiLineString = "MULTILINESTRING"
 	TMultiPolygon    = "MULTIPOLYGON"
+	TCollection      = "GEOMETRYCOLLECTION"
+	// TGeometry is a table type only (a column that may hold any geometry type)
+	TGeometry = "GEOMETRY"
 )
 
-var wkbCode = map[string]uint32{TPoint: 1, TLineString: 2, TPolygon: 3, TMultiPoint: 4, TMultiLineString: 5, TMultiPolygon: 6}
+var wkbCode = map[string]uint32{TPoint: 1, TLineString: 2, TPolygon: 3, TMultiPoint: 4, TMultiLineString: 5, TMultiPolygon: 6, TCollection: 7}
 
 // Coords returns every coordinate of the geometry.
 func (g *G) Coords() [][2]float64 {
@@ -51,6 +55,9 @@ func (g *G) Coords() [][2]float64 {
 		for _, l := range m {
 			out = append(out, l...)
 		}
+	}
+	for _, c := range g.C {
+		out = append(out, c.Coords()...)
 	}
 	return out
 }
@@ -122,6 +129,10 @@ func (g *G) Normalised() *G {
 				out.M[i][j] = OpenRing(r)
 			}
 		}
+	case TCollection:
+		for _, m := range g.C {
+			out.C = append(out.C, m.Normalised())
+		}
 	default:
 		out.L, out.M = g.L, g.M
 	}
@@ -163,6 +174,13 @@ func EncodeWKB(w *bytes.Buffer, g *G) error {
 			putHeader(w, 2)
 			putCount(w, len(l))
 			putPoints(w, l)
+		}
+	case TCollection:
+		putCount(w, len(g.C))
+		for _, m := range g.C {
+			if err := EncodeWKB(w, m); err != nil {
+				return err
+			}
 		}
 	case TMultiPolygon:
 		putCount(w, len(g.M))
@@ -318,6 +336,12 @@ func decodeWKB(r *reader) *G {
 			}
 			g.M = append(g.M, poly)
 		}
+	case 7:
+		g.T = TCollection
+		n := r.count(bo)
+		for i := 0; i < n && r.err == nil; i++ {
+			g.C = append(g.C, decodeWKB(r))
+		}
 	default:
 		if r.err == nil {
 			r.err = fmt.Errorf("gpkgh: unsupported WKB type %d", code)
@@ -382,6 +406,12 @@ func (g *G) ToGeom() geom.Geometry {
 			mp[i] = cloneLines(p)
 		}
 		return mp
+	case TCollection:
+		col := make(geom.Collection, len(g.C))
+		for i, m := range g.C {
+			col[i] = m.ToGeom()
+		}
+		return col
 	}
 	return nil
 }
@@ -412,6 +442,16 @@ func FromGeom(v geom.Geometry) (*G, error) {
 		g := &G{T: TMultiPolygon}
 		for _, p := range x {
 			g.M = append(g.M, cloneLines(p))
+		}
+		return g, nil
+	case geom.Collection:
+		g := &G{T: TCollection}
+		for _, m := range x {
+			mg, err := FromGeom(m)
+			if err != nil {
+				return nil, err
+			}
+			g.C = append(g.C, mg)
 		}
 		return g, nil
 	}
@@ -449,6 +489,12 @@ func (g *G) Key() string {
 			}
 			b.WriteByte(']')
 		}
+	case TCollection:
+		for _, m := range g.C {
+			b.WriteByte('<')
+			b.WriteString(m.Key())
+			b.WriteByte('>')
+		}
 	}
 	return b.String()
 }
@@ -458,6 +504,8 @@ func (g *G) String() string {
 		return "NULL"
 	}
 	switch g.T {
+	case TCollection:
+		return fmt.Sprintf("%s%v", g.T, g.C)
 	case TMultiPolygon:
 		return fmt.Sprintf("%s%v", g.T, g.M)
 	case TPolygon, TMultiLineString:
